@@ -9,7 +9,7 @@
 
     (r, p) = rsmi_to_graph(rsmi) and [eo] = the iteration artefact of ITSGraph are inputs, as for smart_to_gml. *)
 From Coq Require Import List NArith ZArith Bool.
-From SK Require Import lib.Tok lib.LGraph lib.StrJoin model.C10_Model.
+From SK Require Import lib.Tok lib.LGraph lib.StrJoin model.C10_Model model.C10_Text.
 Import ListNotations.
 Local Open Scope Z_scope.
 
@@ -121,3 +121,26 @@ Definition run_imph (g : gr) (preserve : list Z) : tok :=
   if imph_keys_ok g
   then L [L [t_gr_ord (implicit_hydrogen g preserve)]; L [t_gr_ord (implicit_hydrogen_reindex g preserve)]]
   else L [L []; L []].
+
+(** * NXToGML.transform, its last intermediate state: the three graphs and the changed-node list handed to _rule_grammar
+      (after h_to_explicit of the context and after the reindex relabelling) — observed on the real call by a spy on
+      NXToGML._rule_grammar and compared graph by graph (node order included) *)
+Definition nx_to_gml_mid (Lg Rg Kg : gr) (reindex explicit_h : bool) : gr * gr * gr * list N :=
+  let K1 := if explicit_h then h_to_explicit Kg None false else Kg in
+  let m := enum_from 1%N (node_ids Lg) in
+  let '(L2, R2, K2) := if reindex then (nx_relabel m Lg, nx_relabel m Rg, nx_relabel m K1) else (Lg, Rg, K1) in
+  (L2, R2, K2, find_changed L2 R2).
+(** NXToGML._rule_grammar *)
+Definition rule_grammar (x : gr * gr * gr * list N) (explicit_h : bool) : grec :=
+  let '(L2, R2, K2, ch) := x in
+  [(SLeft, side_entries L2 ch); (SContext, context_entries K2 ch explicit_h); (SRight, side_entries R2 ch)].
+Definition its_to_gml_mid (its : gr) (core reindex explicit_h : bool) : gr * gr * gr * list N :=
+  let c := if core then get_rc its else its in
+  let '(r, p) := its_decompose c in
+  nx_to_gml_mid r p c reindex explicit_h.
+Definition t_mid (x : gr * gr * gr * list N) : tok :=
+  let '(L2, R2, K2, ch) := x in L [t_gr_ord L2; t_gr_ord R2; t_gr_ord K2; tlist tN ch].
+Definition run_its7 (its : gr) (core reindex explicit_h : bool) : tok :=
+  L [run_its6 its core reindex explicit_h; t_mid (its_to_gml_mid its core reindex explicit_h)].
+Definition run_transform2 (Lg Rg Kg : gr) (reindex explicit_h : bool) : tok :=
+  L [run_transform Lg Rg Kg reindex explicit_h; t_mid (nx_to_gml_mid Lg Rg Kg reindex explicit_h)].
